@@ -3,6 +3,11 @@ import XcpProofs.L0Fs
 import XcpProofs.MirrorConc
 import XcpProofs.OverlayConc
 import XcpProofs.MultiConc
+import XcpProofs.DerefConc
+import XcpProofs.ClashConc
+import XcpProofs.ClashExample
+import XcpProofs.MultiClash
+import XcpProofs.DerefOverlay
 import XcpProofs.PoolInv
 import XcpProofs.ParfileInv
 import XcpProps.C01
@@ -200,6 +205,97 @@ theorem several_sources_any_interleaving (fs : Fs) (c : Cfg) (dest : RPath) (ite
     s.failed = false ∧ (L0.final s = true →
       FsEq s.fs { fs with root := overlayAll fs.root dest.names items fs.root }) :=
   multi_concurrent_ok fs c dest items fuel hd hn hwf hdest hdd hfuel hsrc hnd hun hcomp hlen ls s hrun
+
+/-- … and with `--dereference` (`-L`) onto a fresh target: the operations read from the canonical places the links lead
+to — anywhere in the namespace — and write below the target; no interleaving can make one fail, and every complete run of
+the concurrent model ends with the tree seen through the links (`s.erase`) at the target -/
+theorem dereference_fresh_destination_any_interleaving (fs : Fs) (c : Cfg) (hd : c.dereference = true) (hn : c.noClobber = false)
+    (src tb : RPath) (s : SNode) (fuel : Nat)
+    (hwf : FsEq fs fs)
+    (hsrc : AbsNames src)
+    (hder : derefS fs (fuel + 1) src.names [] = some s)
+    (htb : PlainTarget fs tb) (hne : tb.names ≠ []) (habs : fs.root.getAt tb.names = none)
+    (hpar : ∃ es, fs.root.getAt tb.names.dropLast = some (.dir es))
+    (hlen : tb.names.length + fuel < 255)
+    (ls : List L0.Label) (st : L0.St)
+    (hrun : L0.run c (L0.init fs (walkEntry fs c none src tb (fuel + 1) [] [])) ls = some st) :
+    st.failed = false ∧
+    (L0.final st = true → FsEq st.fs { fs with root := fs.root.setAt tb.names s.erase }) :=
+  deref_fresh_concurrent_ok fs c hd hn src tb s fuel hwf hsrc hder htb hne habs hpar hlen ls st hrun
+
+/-- the exit STATUS of a clashing copy is the same on every interleaving: for a destination of directories and regular
+files that is not `Compatible` with the source (C02 `clashing_destination_exits_nonzero`: the sequential run exits
+non-zero), NO run of the concurrent model — any interleaving, worker count, driver — completes without having failed;
+and since a run that has neither failed nor finished can always take a step (`a_run_never_sticks`), every maximal run
+ends failed.  (WHAT such a failing run leaves behind does depend on the schedule: recorded finding F14.) -/
+theorem clashing_destination_fails_on_every_interleaving (fs : Fs) (c : Cfg) (hd : c.dereference = false) (hn : c.noClobber = false)
+    (src tb : RPath) (srcNode dstNode : Node) (fuel : Nat)
+    (hwf : FsEq fs fs) (hroot : fs.root.isDir = true)
+    (hsrc : PlainTarget fs src) (hsn : fs.root.getAt src.names = some srcNode)
+    (hcop : srcNode.Copyable fuel)
+    (htb : PlainTarget fs tb) (hne : tb.names ≠ [])
+    (hdst : fs.root.getAt tb.names = some dstNode) (hplain : dstNode.plainTree = true)
+    (hclash : ¬ Compatible (some dstNode) srcNode)
+    (hpar : ∃ es, fs.root.getAt tb.names.dropLast = some (.dir es))
+    (hun1 : ¬ src.names <+: tb.names) (hun2 : ¬ tb.names <+: src.names)
+    (hlen : src.names.length + fuel < 200 ∧ tb.names.length + fuel < 200)
+    (ls : List L0.Label) (s : L0.St)
+    (hrun : L0.run c (L0.init fs (walkEntry fs c none src tb (fuel + 1) [] [])) ls = some s)
+    (hfin : L0.final s = true) : s.failed = true :=
+  clash_fails_every_interleaving fs c hd hn src tb srcNode dstNode fuel hwf hroot hsrc hsn hcop htb hne hdst hplain hclash
+    hpar hun1 hun2 hlen ls s hrun hfin
+
+/-- a run of the concurrent model that has not failed and is not finished can always take a step -/
+theorem a_run_never_sticks (c : Cfg) (s : L0.St) (hf : s.failed = false) (hn : L0.final s = false) :
+    ∃ l s', L0.step c s l = some s' :=
+  unfailed_unfinished_can_step c s hf hn
+
+/-- the hypotheses are satisfiable: the instance of `XcpProofs/ClashExample.lean` (a source directory `sub` meets a
+regular file one level down, after a sibling that is copied) meets all of them, fails on a concrete interleaving by
+evaluation, and on every interleaving by the theorem -/
+example : ∃ s, L0.run {} (L0.init ClashExample.exFs (walkEntry ClashExample.exFs {} none ClashExample.src ClashExample.tb
+    (ClashExample.fuel + 1) [] [])) ClashExample.ls1 = some s ∧ L0.final s = true ∧ s.failed = true :=
+  ClashExample.instance_fails_on_an_interleaving
+
+/-- … the same for SEVERAL sources whose operations interleave: when one target clashes, no run of the concurrent model
+over the concatenated lists completes without having failed -/
+theorem several_sources_one_clash_fails_on_every_interleaving (fs : Fs) (c : Cfg) (dest : RPath) (items : List CopySrc)
+    (fuel : Nat)
+    (hd : c.dereference = false) (hn : c.noClobber = false)
+    (hwf : FsEq fs fs)
+    (hdd : ∃ es, fs.root.getAt dest.names = some (.dir es))
+    (hfuel : fuel < walkFuel)
+    (hsrc : ∀ e ∈ items, PlainTarget fs e.path ∧ e.path.fileName = some e.base ∧
+      fs.root.getAt e.path.names = some e.node ∧ e.node.Copyable fuel ∧ e.path.names.length + walkFuel < 256)
+    (hnd : (items.map (·.base)).Nodup)
+    (hun : ∀ e ∈ items, ∀ e' ∈ items,
+      ¬ e.path.names <+: dest.names ++ [e'.base] ∧ ¬ dest.names ++ [e'.base] <+: e.path.names)
+    (hplain : ∀ e ∈ items, ∀ d, fs.root.getAt (dest.names ++ [e.base]) = some d → d.plainTree = true)
+    (hlen : dest.names.length + 1 + walkFuel < 256)
+    (hclash : ∃ e ∈ items, ¬ Compatible (fs.root.getAt (dest.names ++ [e.base])) e.node)
+    (ls : List L0.Label) (s : L0.St)
+    (hrun : L0.run c (L0.init fs (multiOps fs c dest items)) ls = some s)
+    (hfin : L0.final s = true) : s.failed = true :=
+  multi_clash_fails_every_interleaving fs c dest items fuel hd hn hwf hdd hfuel hsrc hnd hun hplain hlen hclash ls s hrun hfin
+
+/-- … and `-L` onto an EXISTING compatible destination (C02 `dereferenced_tree_overlays_an_existing_destination`): no
+interleaving can make an operation fail, and every complete run ends with the overlay -/
+theorem dereference_existing_destination_any_interleaving (fs : Fs) (c : Cfg) (hd : c.dereference = true) (hn : c.noClobber = false)
+    (src tb : RPath) (s : SNode) (fuel : Nat)
+    (hwf : FsEq fs fs)
+    (hsrc : AbsNames src)
+    (hder : derefS fs (fuel + 1) src.names [] = some s)
+    (htb : PlainTarget fs tb) (hne : tb.names ≠ [])
+    (hcompat : Compatible (fs.root.getAt tb.names) s.erase)
+    (hpar : ∃ es, fs.root.getAt tb.names.dropLast = some (.dir es))
+    (hout : ReadsAway s tb.names)
+    (hlen : tb.names.length + fuel < 255)
+    (ls : List L0.Label) (st : L0.St)
+    (hrun : L0.run c (L0.init fs (walkEntry fs c none src tb (fuel + 1) [] [])) ls = some st) :
+    st.failed = false ∧
+    (L0.final st = true →
+      FsEq st.fs { fs with root := fs.root.setAt tb.names (Node.overlay (fs.root.getAt tb.names) s.erase) }) :=
+  overlay_deref_concurrent_ok fs c hd hn src tb s fuel hwf hsrc hder htb hne hcompat hpar hout hlen ls st hrun
 
 /-- the totals of the update stream of a failure-free run are the same on every schedule -/
 theorem update_totals_schedule_independent (files : List Nat) (s1 s2 : Status.St)
